@@ -46,13 +46,14 @@ struct Plan {
     int policy = 1; uint64_t den = 16, quantum = 2, sched_seed = 1; int depth = 2;
     vector<rt::Switch> switches; bool has_switches = false;
     vector<rt::ScriptStep> script;      // scheduling script (policy 5): see rt.hpp
+    int sig = 0;                // signal environment: percent of blocking sem_wait() calls interrupted (EINTR); 0 = the application handles no signals
     vector<int> main_init, main_free;   // object handoff: threads whose eav_t is initialised by the main thread before they start / freed by it after the join
 };
 
 static sj::Value plan_to_json(const Plan &p) {
     sj::Value j = sj::Value::object();
     j.set("prop", "C14"); j.set("cfg", p.cfg); j.set("seed", (long long)p.seed); j.set("index", p.index); j.set("nthreads", p.nthreads); j.set("locale", p.locale);
-    sj::Value s = sj::Value::object(); s.set("policy", p.policy); s.set("den", (long long)p.den); s.set("quantum", (long long)p.quantum); s.set("depth", p.depth); s.set("seed", (long long)p.sched_seed);
+    sj::Value s = sj::Value::object(); s.set("policy", p.policy); s.set("den", (long long)p.den); s.set("quantum", (long long)p.quantum); s.set("depth", p.depth); s.set("seed", (long long)p.sched_seed); if (p.sig) s.set("sig", p.sig);
     j.set("sched", s);
     sj::Value a = sj::Value::array();
     for (auto &op : p.ops) {
@@ -80,7 +81,7 @@ static Plan plan_from_json(const sj::Value &j) {
     if (p.nthreads < 1) p.nthreads = 1;
     if (p.nthreads > rt::MAXT - 1) p.nthreads = rt::MAXT - 1;
     const sj::Value *s = j.get("sched");
-    if (s) { p.policy = (int)s->geti("policy", 1); p.den = (uint64_t)s->geti("den", 16); p.quantum = (uint64_t)s->geti("quantum", 2); p.depth = (int)s->geti("depth", 2); p.sched_seed = (uint64_t)s->geti("seed", 1); }
+    if (s) { p.policy = (int)s->geti("policy", 1); p.den = (uint64_t)s->geti("den", 16); p.quantum = (uint64_t)s->geti("quantum", 2); p.depth = (int)s->geti("depth", 2); p.sched_seed = (uint64_t)s->geti("seed", 1); p.sig = (int)s->geti("sig", 0); if (p.sig < 0) p.sig = 0; if (p.sig > 100) p.sig = 100; }
     if (p.den < 1) p.den = 1;
     const sj::Value *ops = j.get("ops");
     if (ops) for (auto &e : ops->a) {
@@ -307,7 +308,7 @@ struct Viol { string cls, detail; };
 static const size_t STACK_LIMIT = 32u << 10;
 struct Stats {
     uint64_t plans = 0, steps = 0, events = 0, ctx_switches = 0, seq_steps = 0, ops = 0, lib_calls = 0, threads_hist[rt::MAXT + 1] = { 0 }, policy_hist[5] = { 0 };
-    uint64_t stack_used_max = 0, alloc_fault_not_comparable = 0, exit_plans = 0, exit_handlers_run = 0, relay_plans = 0, relay_handovers = 0, handoff_plans = 0, calls_by_main_before_start = 0, calls_by_main_after_join = 0, alloc_faults_attached = 0, aborted_calls = 0, spin_yields = 0, inconclusive_shadow_overflow = 0, write_shared = 0, sync_ops = 0, atomic_ops = 0, pseudo_writes = 0, outcome_cmp = 0, globals_dirty_after_seq = 0, races_seen = 0;
+    uint64_t stack_used_max = 0, alloc_fault_not_comparable = 0, exit_plans = 0, exit_handlers_run = 0, relay_plans = 0, relay_handovers = 0, handoff_plans = 0, calls_by_main_before_start = 0, calls_by_main_after_join = 0, alloc_faults_attached = 0, aborted_calls = 0, spin_yields = 0, sem_eintr = 0, inconclusive_shadow_overflow = 0, write_shared = 0, sync_ops = 0, atomic_ops = 0, pseudo_writes = 0, outcome_cmp = 0, globals_dirty_after_seq = 0, races_seen = 0;
     std::set<uint64_t> interleavings, plan_hashes, nontrivial;
     uint64_t kind[NKINDS] = { 0 };
 };
@@ -367,7 +368,7 @@ static void run_plan(const Plan &p, bool want_log, RunOut &ro, bool count = true
         handoff_steps += rt::end_sequential();
     }
     cfg.nthreads = p.nthreads; cfg.keep_sync_state = handoff; cfg.script = p.script; cfg.op_boundaries = !p.script.empty(); cfg.policy = p.has_switches ? 0 : p.policy; cfg.den = p.den; cfg.quantum = p.quantum; cfg.pct_depth = p.depth;
-    cfg.pct_est_steps = seq_steps ? seq_steps : 1; cfg.sched_seed = p.sched_seed; cfg.replay = p.switches;
+    cfg.pct_est_steps = seq_steps ? seq_steps : 1; cfg.sched_seed = p.sched_seed; cfg.replay = p.switches; cfg.sig_rate = p.sig;
     cfg.step_budget = 20 * seq_steps + 2000;
     sh.in_concurrent = true;
     rt::run_concurrent(cfg, thread_entry, &sh, res);
@@ -429,7 +430,7 @@ static void run_plan(const Plan &p, bool want_log, RunOut &ro, bool count = true
     if (count) {
         ST.plans++; ST.steps += res.steps; ST.events += res.events; ST.ctx_switches += res.ctx_switches; ST.seq_steps += seq_steps; ST.ops += p.ops.size();
         ST.threads_hist[p.nthreads]++; ST.policy_hist[cfg.policy % 5]++;
-        ST.write_shared += res.write_shared_locations; ST.sync_ops += res.sync_ops; ST.atomic_ops += res.atomic_ops; ST.pseudo_writes += res.pseudo_writes; ST.spin_yields += res.spin_yields;
+        ST.write_shared += res.write_shared_locations; ST.sync_ops += res.sync_ops; ST.atomic_ops += res.atomic_ops; ST.pseudo_writes += res.pseudo_writes; ST.spin_yields += res.spin_yields; ST.sem_eintr += res.sem_eintr;
         if (dirty) ST.globals_dirty_after_seq++;
         ST.races_seen += res.races.size(); if (res.stack_used_max > ST.stack_used_max) ST.stack_used_max = res.stack_used_max;
         for (auto &op : p.ops) { ST.kind[op.k]++; if (op.mf) ST.alloc_faults_attached++; }
@@ -552,6 +553,8 @@ static void discover_conflicts() {
 static Plan gen_plan(const string &cfg, uint64_t seed, long long index) {
     Plan p; p.cfg = cfg; p.seed = seed; p.index = index;
     uint64_t rs = sim_mix64(seed ^ sim_mix64((uint64_t)index * 0x9E3779B97F4A7C15ULL + 14));
+    // one plan in three runs in an application that handles signals without SA_RESTART: blocking waits may return EINTR
+    { uint64_t sg = sim_mix64(rs ^ 0x51671a1ULL); p.sig = (sg % 3 == 0) ? 10 + (int)((sg >> 8) % 60) : 0; }
     sim_rng w = sim_derive(rs, 1), s = sim_derive(rs, 2), lr = sim_derive(rs, 3);
     p.locale = sim_below(&lr, 3) == 0 ? "C.UTF-8" : "C";
     static const int TS[] = { 2, 2, 2, 3, 3, 4, 4, 8, 16 };
@@ -824,7 +827,7 @@ static sj::Value stats_json() {
     j.set("handoff_plans", ST.handoff_plans); j.set("calls_by_main_before_start", ST.calls_by_main_before_start); j.set("calls_by_main_after_join", ST.calls_by_main_after_join);
     j.set("max_worker_stack_bytes_used", ST.stack_used_max);
     j.set("alloc_faults_attached", ST.alloc_faults_attached); j.set("programs_not_comparable_after_alloc_fault", ST.alloc_fault_not_comparable); j.set("calls_aborted_inside_library", ST.aborted_calls);
-    j.set("sync_ops", ST.sync_ops); j.set("atomic_ops", ST.atomic_ops); j.set("spin_yields", ST.spin_yields); j.set("hidden_state_libc_calls", ST.pseudo_writes);
+    j.set("sync_ops", ST.sync_ops); j.set("atomic_ops", ST.atomic_ops); j.set("spin_yields", ST.spin_yields); j.set("sem_wait_interrupted_by_signal", ST.sem_eintr); j.set("hidden_state_libc_calls", ST.pseudo_writes);
     j.set("plans_where_library_statics_changed", ST.globals_dirty_after_seq); j.set("racing_pairs_seen", ST.races_seen);
     j.set("library_writable_static_bytes", (long long)rt::library_writable_bytes());
     j.set("runs_inconclusive_shadow_table_full", ST.inconclusive_shadow_overflow);
